@@ -11,7 +11,7 @@ for dn in $DIRS; do
 		[ -f $D/done$k ] && continue
 		/verif/tools/confirm_seed.sh $D $k > $D/confirm$k.log 2>&1
 		suite=$(grep -A8 "== suite with patch" $D/confirm$k.log | grep -c "FAILED\|failed;" )
-		suite_fail=$(grep -B0 -A8 "== suite with patch" $D/confirm$k.log | grep "test result" | grep -vc " 0 failed")
+		suite_fail=$(sed -n '/== suite with patch/,/== demo with patch/p' $D/confirm$k.log | grep "test result" | grep -vc " 0 failed")
 		with=$(grep -A12 "== demo with patch" $D/confirm$k.log | grep "test result" | head -1 | grep -c "FAILED")
 		without=$(grep -A12 "== demo without patch" $D/confirm$k.log | grep "test result" | head -1 | grep -c "ok\.")
 		SR=/tmp/sr2 /verif/tools/seedrun_iso.sh $D/out/$k/patch.diff $prop ${REL[$prop]} > $D/run$k.log 2>&1
